@@ -269,7 +269,7 @@ class Results:
                     e[1] = best
 
 
-def run_enum(ctx, exe, orc, what, n, res, lattice=L):
+def run_enum(ctx, exe, orc, what, n, res, lattice=L, every=1):
     """all paths of exactly n points over the lattice, piped shard by shard through harness | oracle -q"""
     total = (lattice * lattice) ** n
     nshards = 1 if total < 5000 else vf.NPROC * (4 if n <= 5 else 16)
@@ -278,7 +278,7 @@ def run_enum(ctx, exe, orc, what, n, res, lattice=L):
         cmd = '%s enum %s %d %d %d %d | %s -q' % (exe, what, n, lattice, k, nshards, orc)
         return k, vf.sh(['bash', '-c', 'set -o pipefail; ' + cmd], timeout=6000)
     with cf.ThreadPoolExecutor(max_workers=vf.NPROC) as ex:
-        for k, p in ex.map(work, range(nshards)):
+        for k, p in ex.map(work, range(0, nshards, every)):
             out = p.stdout.split('\n')
             done = [l for l in out if l.startswith('DONE ')]
             if p.returncode != 0 or len(done) != 1:
@@ -442,7 +442,8 @@ def run(ctx):
         # quick tier, 5-point paths: SimplifyPath with the two-value epsilon grid {0.5, 2} (the full grid is enumerated for
         # 0..4 points here and for 5 and 6 points in the thorough tier); TrimCollinear and RDP (whose first non-trivial
         # length is 5) always with everything
-        run_enum(ctx, exe, orc, 'TsR' if (n == 5 and not thorough) else 'TSR', n, res)
+        # 6-point paths (thorough): every 4th shard of the enumeration (4.2 of 16.8 million paths; the search after a break runs all)
+        run_enum(ctx, exe, orc, 'TsR' if (n == 5 and not thorough) else 'TSR', n, res, every=4 if n == 6 else 1)
         ctx.hist('exhaustive_lines_by_len', n, res.lines - before)
         ctx.log('exhaustive n=%d over %dx%d: %d lines, failing lines so far %d' % (n, L, L, res.lines - before, res.nfail))
 
@@ -500,7 +501,7 @@ def run(ctx):
     ctx.count('evaluations', res.lines)
     ctx.cov['distinct_nontrivial'] = res.nontrivial
     ctx.cov['rule'] = ('every path of 0..%d points over the %dx%d lattice x {TrimCollinear open/closed, SimplifyPath eps in %s open/closed '
-                       '(quick tier, 5-point paths: eps in {0.5, 2}), '
+                       '(quick tier, 5-point paths: eps in {0.5, 2}; thorough tier, 6-point paths: every 4th path of the enumeration), '
                        'RamerDouglasPeucker same eps} and, for 0..%d points, x {StripNearEqual max_dist_sqrd in {0,1,2,3,5,10} open/closed, '
                        'StripDuplicates open/closed} (enumerated inside the harness, no duplicates), plus seeded fan shapes for '
                        'StripNearEqual (2-4 trailing and 0-3 leading vertices within the tolerance of the first vertex, pairwise farther '
